@@ -39,32 +39,50 @@ def outcome_of(o):
         return '?'
 
 
+def norm(o):
+    return 'no-error' if not o.startswith('exc:') else o[4:]
+
+
 def classify(fn, case, exp, got):
-    """mechanism key: pattern kinds of the case CPython selected (or of all cases when none), subject kind, and what differs"""
+    """mechanism key from: structural features of the function (run-time-invalid patterns, `as` over a value pattern),
+    hostility of the subject (hooks that raise / log), the exception types involved and what differs"""
     eo, go = outcome_of(exp), outcome_of(got)
-    sk = subject_kind(case['a'][1:-2])
+    subj = case['a'][1:-2]
+    sk = subject_kind(subj)
+    feats = fn.get('features', [])
+    raising = bool(re.search(r'M\.(LARaise|MapGetRaise|EqRaise)\(', subj))
+    logging_ = bool(re.search(r'M\.(LA|MapGetLog|EqLog)\(', subj))
     if eo.startswith('case'):
-        ci = int(eo[4:])
-        kinds = sorted(matchgen.kinds_in(fn['cases'][ci]['pattern']))
+        top = fn['cases'][int(eo[4:])]['pattern'][0]
     elif go.startswith('case'):
-        ci = int(go[4:])
-        kinds = sorted(matchgen.kinds_in(fn['cases'][ci]['pattern']))
+        top = fn['cases'][int(go[4:])]['pattern'][0]
     else:
-        kinds = fn['kinds']
-    top = fn['cases'][ci]['pattern'][0] if (eo.startswith('case') or go.startswith('case')) else '-'
+        top = '-'
     if eo != go:
-        what = 'selected:%s->%s' % (re.sub(r'\d+', 'N', eo), re.sub(r'\d+', 'N', go))
-    elif exp[:2] != got[:2]:
-        what = 'bindings-differ'
-    else:
-        what = 'side-effect-log-differs'
-    return '%s:subject=%s:top=%s:kinds=%s' % (what, sk, top, '+'.join(k for k in kinds if k not in ('literal', 'capture', 'wildcard')) or 'simple')
+        if 'ValueError' in (norm(eo), norm(go)) and 'duplicate-mapping-keys' in feats:
+            return 'duplicate-mapping-keys:ValueError-raised-at-different-point:%s->%s' % (norm(eo), norm(go))
+        if 'TypeError' in (norm(eo), norm(go)) and 'invalid-class-pattern' in feats:
+            return 'invalid-class-pattern:TypeError-raised-at-different-point:%s->%s' % (norm(eo), norm(go))
+        if raising:
+            return 'exception-raising-subject-hook:%s->%s' % (norm(eo), norm(go))
+        return 'selected:%s->%s:subject=%s:top=%s' % (re.sub(r'\d+', 'N', eo), re.sub(r'\d+', 'N', go), sk, top)
+    if exp[:2] != got[:2]:
+        if 'as-over-value-pattern' in feats:
+            return 'bindings-differ:as-over-value-pattern:subject=%s' % sk
+        return 'bindings-differ:subject=%s:top=%s' % (sk, top)
+    # same outcome, same bindings: the side-effect log differs
+    if raising:
+        return 'side-effect-log-differs:exception-raising-subject-hook'
+    if logging_:
+        hooks = sorted(set(re.findall(r'M\.(LA|MapGetLog|EqLog)\(', subj)))
+        return 'side-effect-log-differs:logging-subject-hook:%s' % '+'.join(hooks)
+    return 'side-effect-log-differs:guards:top=%s' % top
 
 
 def main(ck):
     tree = cy.Tree('C31')
-    nfun = ck.pick(800, 6000)
-    per_mod = ck.pick(100, 250)
+    nfun = ck.pick(320, 2400)
+    per_mod = ck.pick(40, 100)
     nsub = ck.pick(25, 50)
     rng = ck.rng('gen')
     funcs = []
@@ -181,7 +199,7 @@ def main(ck):
                             'compare': {'exc_args': False, 'log': True}, 'expected': m['exp'], 'observed': m['got']})
         for c in res.crashes:
             fn = fmap[c['case']['f']][1]
-            ck.discrepancy('crash:kinds=%s' % '+'.join(fn['kinds']), 'crash/hang %s in %s on %s' % (c['kind'], fn['src'], c['case']['a']),
+            ck.discrepancy('crash:%s' % ('exception-raising-subject-hook' if re.search(r'M\.(LARaise|MapGetRaise|EqRaise)\(', c['case']['a']) else 'kinds=' + '+'.join(fn['kinds'])), 'crash/hang %s in %s on %s' % (c['kind'], fn['src'], c['case']['a']),
                            {'module_source': matchgen.PREAMBLE + '\n\n' + fn['src'], 'ext': '.py', 'case': c['case'], 'setup': SETUP,
                             'stderr': c['stderr']})
         for ft in res.fatal:
